@@ -1,0 +1,44 @@
+//go:build verif
+
+package render
+
+// Contracts for the verification machinery in /verif (govc). Comment-only file:
+// compiled only with -tags verif, and even then it contains no code.
+
+// ---- render.Context: the interface tag renderers program against ------------
+// Bindings() is the identity of the one variable map of the current render
+// (single-map discipline, C12); Get/Set are specified against that map.
+
+//@ interface render.Context
+//@ method Bindings pure
+//@ ensures nonnil: result != nil
+//@ method Get
+//@ assigns nothing
+//@ ensures lookup: result == mapget(this.Bindings(), name)
+//@ method Set
+//@ assigns M$has$Str$Val, M$val$Str$Val
+//@ ensures bound: mapset(this.Bindings(), name, value)
+//@ method SourceFile pure
+//@ method TagArgs pure
+//@ method TagName pure
+//@ method Errorf
+//@ assigns nothing
+//@ ensures nonnil: result != nil
+//@ method WrapError
+//@ assigns nothing
+//@ ensures nilnil: err == nil ==> result == nil
+//@ ensures nonnil: err != nil ==> result != nil
+//@ ensures cause: err != nil && !is(err, parser.Error) ==> result.Cause() == err
+//@ method RenderChildren
+//@ assigns *
+//@ method RenderBlock
+//@ assigns *
+//@ method Evaluate
+//@ assigns nothing
+//@ method EvaluateString
+//@ assigns nothing
+
+//@ interface render.Error
+//@ method Cause pure
+//@ method Path pure
+//@ method LineNumber pure
